@@ -496,6 +496,163 @@ theorem torsion_range_fails_on (T : Trans ℝ) (pi : ℝ) (hs : SqrtOK T) (ha : 
     norm_num [hs1, hpi, ha.deg]
     field_simp
 
+/-- the specification's `y` has the sign of the code's `direction` (for `sqrt(b2·b2) > 0`) -/
+theorem spec_sign (T : Trans ℝ) (p1 p2 p3 p4 : V3 ℝ) (hs : 0 < T.sqrt (sdot (p3.sub p2) (p3.sub p2))) :
+    0 < specTorsionY T p1 p2 p3 p4 ↔ 0 < direction p1 p2 p3 p4 := by
+  rw [direction_eq]
+  simp only [specTorsionY]
+  constructor
+  · intro h
+    by_contra hc
+    have := mul_nonpos_of_nonneg_of_nonpos hs.le (not_lt.mp hc)
+    linarith
+  · intro h; exact mul_pos hs h
+
+/-- the quadruple of the convention witness meets the hypotheses of `torsion_range_partial` -/
+example : NonCollinear ⟨1, 0, 0⟩ ⟨0, 0, 0⟩ ⟨0, 0, 1⟩ ∧ NonCollinear ⟨0, 0, 0⟩ ⟨0, 0, 1⟩ ⟨0, 1, 1⟩
+    ∧ ¬ TransPlanar ⟨1, 0, 0⟩ ⟨0, 0, 0⟩ ⟨0, 0, 1⟩ ⟨0, 1, 1⟩ := by
+  refine ⟨?_, ?_, ?_⟩
+  · simp only [NonCollinear, sq3, V3.sub, V3.cross]; norm_num
+  · simp only [NonCollinear, sq3, V3.sub, V3.cross]; norm_num
+  · rintro ⟨h, _⟩
+    simp only [direction, directionCode, V3.sub] at h
+    norm_num at h
+
 end real
+
+
+/-! ### distances -/
+
+section distance
+variable {K : Type} [Field K]
+
+/-- what is assumed of the cell: non-zero `a`, `b`, `sin γ`; `sin²γ + cos²γ = 1`; and `V` is the cell volume,
+    `V² = a²b²c²(1 + 2 cos α cos β cos γ − cos²α − cos²β − cos²γ)` (`vol_unitcell`) -/
+structure CellOK (C : Cell K) : Prop where
+  a_ne : C.a ≠ 0
+  b_ne : C.b ≠ 0
+  sg_ne : C.sg ≠ 0
+  sg_cg : C.sg * C.sg + C.cg * C.cg = 1
+  vol : C.v * C.v = C.a * C.a * (C.b * C.b) * (C.c * C.c)
+    * (1 + 2 * C.ca * C.cb * C.cg - C.ca * C.ca - C.cb * C.cb - C.cg * C.cg)
+
+/-- the orthogonalisation matrix of the code realises the metric tensor: `|M f1 − M f2|² = Δᵀ G Δ` -/
+theorem cart_metric (C : Cell K) (h : CellOK C) (f1 f2 : V3 K) :
+    sq3 ((cart C f1).sub (cart C f2)) = metricForm C (f1.sub f2) := by
+  obtain ⟨ha, hb, hsg, hsc, hvol⟩ := h
+  have e12 : C.c * (C.ca - C.cb * C.cg) / C.sg * C.sg = C.c * (C.ca - C.cb * C.cg) := div_mul_cancel₀ _ hsg
+  have hden : C.a * C.b * C.sg ≠ 0 := mul_ne_zero (mul_ne_zero ha hb) hsg
+  have e22 : C.v / (C.a * C.b * C.sg) * (C.a * C.b * C.sg) = C.v := div_mul_cancel₀ _ hden
+  simp only [sq3, cart, V3.sub, metricForm]
+  generalize C.c * (C.ca - C.cb * C.cg) / C.sg = m12 at e12 ⊢
+  generalize C.v / (C.a * C.b * C.sg) = m22 at e22 ⊢
+  -- m12² + m22² = c² (1 − cos²β)
+  have hk : (m12 * m12 + m22 * m22) * ((C.a * C.b * C.sg) * (C.a * C.b * C.sg))
+      = C.c * C.c * (1 - C.cb * C.cb) * ((C.a * C.b * C.sg) * (C.a * C.b * C.sg)) := by
+    linear_combination (C.a * C.b * (C.a * C.b) * (m12 * C.sg + C.c * (C.ca - C.cb * C.cg))) * e12
+      + (m22 * (C.a * C.b * C.sg) + C.v) * e22 + hvol
+      - (C.a * C.a * (C.b * C.b) * (C.c * C.c) * (1 - C.cb * C.cb)) * hsc
+  have hsum : m12 * m12 + m22 * m22 = C.c * C.c * (1 - C.cb * C.cb) :=
+    mul_right_cancel₀ (mul_ne_zero hden hden) hk
+  linear_combination (C.b * C.b * ((f1.y - f2.y) * (f1.y - f2.y))) * hsc + ((f1.z - f2.z) * (f1.z - f2.z)) * hsum
+    + (2 * C.b * (f1.y - f2.y) * (f1.z - f2.z)) * e12
+
+/-- **named_distance_euclid**: `Atoms.distance` (Euclidean distance of the stored Cartesian coordinates) is the
+    distance of the two sites in the crystal, `sqrt(Δᵀ G Δ)` -/
+theorem named_distance_euclid (T : Trans K) (C : Cell K) (h : CellOK C) (f1 f2 : V3 K) :
+    namedDistance T C f1 f2 = specDistance T C f1 f2 := by
+  have e : namedDistance T C f1 f2 = T.sqrt (sq3 ((cart C f1).sub (cart C f2))) := rfl
+  rw [e, cart_metric C h]; rfl
+
+/-- the expression of `atomic_distance(p1, p2, cell)` is the same quadratic form (no hypothesis on the cell) -/
+theorem metric_dist_eq (T : Trans K) (C : Cell K) (f1 f2 : V3 K) : metricDist T C f1 f2 = specDistance T C f1 f2 := by
+  simp only [metricDist, specDistance]
+  congr 1
+  simp only [metricRadicand, metricForm, V3.sub]; ring
+
+/-- both routes to a distance in the code agree: by name (Cartesian) and in the neighbour search (fractional) -/
+theorem named_eq_metric (T : Trans K) (C : Cell K) (h : CellOK C) (f1 f2 : V3 K) :
+    namedDistance T C f1 f2 = metricDist T C f1 f2 := by
+  rw [named_distance_euclid T C h, metric_dist_eq]
+
+end distance
+
+/-- a monoclinic-type cell that meets `CellOK`: a=3, b=4, c=5, cos γ = 3/5, sin γ = 4/5, cos α = cos β = 0, V = 48 -/
+example : CellOK ({ a := 3, b := 4, c := 5, ca := 0, cb := 0, cg := 3 / 5, sg := 4 / 5, v := 48 } : Cell ℚ) := by
+  refine ⟨?_, ?_, ?_, ?_, ?_⟩ <;> norm_num
+
+/-! ### neighbour search -/
+
+section neighbours
+variable {K : Type} [Field K] [LT K] [∀ a b : K, Decidable (a < b)]
+
+theorem findAroundLoop_eq (T : Trans K) (C : Cell K) (self : AtomN K) (i : Nat) (dist : K) (part : Int)
+    (l : List (AtomN K)) (k : Nat) :
+    findAroundLoop T C self i dist part l k
+      = filterIdx (fun j a => decide (j ≠ i) && !a.qpeak && decide (a.part = part)
+          && decide (specDistance T C self.frac a.frac < dist)) l k := by
+  induction l generalizing k with
+  | nil => rfl
+  | cons a rest ih =>
+    have hiff : (metricDist T C self.frac a.frac < dist ∧ i ≠ k ∧ a.part = part ∧ a.qpeak = false)
+        ↔ ((decide (k ≠ i) && !a.qpeak && decide (a.part = part)
+            && decide (specDistance T C self.frac a.frac < dist)) = true) := by
+      rw [metric_dist_eq]
+      simp only [Bool.and_eq_true, decide_eq_true_eq, Bool.not_eq_true', ne_eq]
+      constructor
+      · rintro ⟨h1, h2, h3, h4⟩; exact ⟨⟨⟨fun e => h2 e.symm, h4⟩, h3⟩, h1⟩
+      · rintro ⟨⟨⟨h2, h4⟩, h3⟩, h1⟩; exact ⟨h1, fun e => h2 e.symm, h3, h4⟩
+    simp only [findAroundLoop, filterIdx, ih, hiff]
+
+/-- **neighbours_spec**: `find_atoms_around(dist, only_part)` of the atom at position `i` returns exactly the positions
+    of the *other* atoms that are no Q-peaks, belong to PART `only_part` and lie closer than `dist` — for every atom
+    list, every cell, every `sqrt`.  (With `self != at`, as the code stood, this needed the hypothesis that no other
+    atom prints the same line; fixes/C15_2 removes it.) -/
+theorem neighbours_spec (T : Trans K) (C : Cell K) (atoms : List (AtomN K)) (i : Nat) (dist : K) (part : Int) :
+    findAround T C atoms i dist part = specAround T C atoms i dist part := by
+  simp only [findAround, specAround]
+  cases atoms[i]? with
+  | none => rfl
+  | some self => simp only [Option.map_some, findAroundLoop_eq]
+
+end neighbours
+
+/-- positions returned by `filterIdx` are exactly the positions that satisfy the predicate (so `specAround` is the
+    set the property describes, in file order, each once) -/
+theorem mem_filterIdx {α : Type} (p : Nat → α → Bool) (l : List α) (k j : Nat) :
+    j ∈ filterIdx p l k ↔ ∃ a, k ≤ j ∧ l[j - k]? = some a ∧ p j a = true := by
+  induction l generalizing k with
+  | nil => simp [filterIdx]
+  | cons a rest ih =>
+    simp only [filterIdx]
+    by_cases hp : p k a = true
+    · simp only [hp, if_true, List.mem_cons, ih]
+      constructor
+      · rintro (rfl | ⟨b, hk, hb, hpb⟩)
+        · exact ⟨a, le_refl _, by simp, hp⟩
+        · refine ⟨b, by omega, ?_, hpb⟩
+          have : j - k = (j - (k + 1)) + 1 := by omega
+          rw [this, List.getElem?_cons_succ]; exact hb
+      · rintro ⟨b, hk, hb, hpb⟩
+        by_cases hjk : j = k
+        · left; exact hjk
+        · right
+          refine ⟨b, by omega, ?_, hpb⟩
+          have : j - k = (j - (k + 1)) + 1 := by omega
+          rw [this, List.getElem?_cons_succ] at hb; exact hb
+    · simp only [hp, Bool.false_eq_true, if_false, ih]
+      constructor
+      · rintro ⟨b, hk, hb, hpb⟩
+        refine ⟨b, by omega, ?_, hpb⟩
+        have : j - k = (j - (k + 1)) + 1 := by omega
+        rw [this, List.getElem?_cons_succ]; exact hb
+      · rintro ⟨b, hk, hb, hpb⟩
+        have hjk : j ≠ k := by
+          rintro rfl
+          simp only [Nat.sub_self, List.getElem?_cons_zero, Option.some.injEq] at hb
+          subst hb; exact hp hpb
+        refine ⟨b, by omega, ?_, hpb⟩
+        have : j - k = (j - (k + 1)) + 1 := by omega
+        rw [this, List.getElem?_cons_succ] at hb; exact hb
 
 end Shelx.C15
